@@ -164,3 +164,29 @@ func (r *Recorder) timeoutReportedAt() int64 {
 	}
 	return -1
 }
+
+// curHandler forwards to the recorder of the run that is executing (a logger handed to a long-lived F1 instance).
+type curHandler struct {
+	st  *h1State
+	ops []func(slog.Handler) slog.Handler
+}
+
+func (h curHandler) Enabled(context.Context, slog.Level) bool { return true }
+
+func (h curHandler) Handle(ctx context.Context, r slog.Record) error {
+	t := h.st.curRec.Handler()
+	for _, op := range h.ops {
+		t = op(t)
+	}
+	return t.Handle(ctx, r)
+}
+
+func (h curHandler) WithAttrs(as []slog.Attr) slog.Handler {
+	ops := append(append([]func(slog.Handler) slog.Handler{}, h.ops...), func(t slog.Handler) slog.Handler { return t.WithAttrs(as) })
+	return curHandler{st: h.st, ops: ops}
+}
+
+func (h curHandler) WithGroup(name string) slog.Handler {
+	ops := append(append([]func(slog.Handler) slog.Handler{}, h.ops...), func(t slog.Handler) slog.Handler { return t.WithGroup(name) })
+	return curHandler{st: h.st, ops: ops}
+}
